@@ -51,6 +51,10 @@ use super::{MatterLocalService, MdnsLocalService};
 pub use query::{build_browse_query, build_resolve_query, parse_into_answer};
 pub use respond::{Host, RespondMode};
 
+/// Verification hooks of the `query` module (add-only, `verif` feature).
+#[cfg(feature = "verif")]
+pub use query::verif as verif_query;
+
 use types::NameSlice;
 
 mod query;
